@@ -717,6 +717,8 @@ func c15Scenarios(tier string) []Scenario {
 	}
 	out = append(out, c15Vanishing(3, all(3), 512, true), c15Vanishing(40, all(40), 4120, false))
 	out = append(out, c15ClientLongEntries(8216, true), c15ClientLongEntries(65560, true), c15ClientLongEntries(8216, false))
+	// message sizes that are not a whole number of host blocks plus the header
+	out = append(out, c15ClientLongEntries(6000, true), c15ClientLongEntries(8000, true), c15ClientLongEntries(4300, true), c15ClientLongEntries(12345, false))
 	out = append(out, c15OddNames(8216, true), c15OddNames(4120, false))
 	out = append(out, c15UnreadableLink(true, syscall.EACCES), c15UnreadableLink(true, syscall.ENOENT), c15UnreadableLink(false, syscall.EACCES))
 	for lo := 0; lo < 1200; lo += 300 {
